@@ -7,6 +7,7 @@ import Driver.OpsNLV
 import Driver.OpsOrder
 import Driver.OpsIRI
 import Driver.OpsColl
+import Driver.OpsRecip
 open Lean Driver
 
 def dispatch (op : String) (j : Json) : R Json :=
@@ -17,6 +18,7 @@ def dispatch (op : String) (j : Json) : R Json :=
   | "iriEquals" => opIriEquals j
   | "irisContains" => opIrisContains j
   | "coll" => opColl j
+  | "recipients" => opRecipients j
   | _ => .error s!"unknown op {op}"
 
 partial def loop (h : IO.FS.Stream) (out : IO.FS.Stream) : IO Unit := do
